@@ -3,7 +3,8 @@
 From HV Require Import Base.Prelude Base.Outcome Base.Bytes Model.CodecMsg Proofs.CodecMsg
   Model.CodecType Proofs.CodecType Model.CodecAttr Proofs.CodecAttr
   Model.CodecSuper Proofs.CodecSuper Model.CodecOhdr Proofs.CodecOhdr
-  Model.CodecLink Proofs.CodecLink Model.CodecCompound Proofs.CodecCompound.
+  Model.CodecLink Proofs.CodecLink Model.CodecCompound Proofs.CodecCompound
+  Model.CodecCompoundTree Proofs.CodecCompoundTree2 Proofs.CodecCompoundTree3.
 
 Theorem C11_dataspace_roundtrip : forall x, wf_dataspace x = true ->
   dec_dataspace (enc_dataspace x) = Ok (proj_dataspace x).
@@ -193,3 +194,64 @@ Theorem C11_compound_member_extent_refuted :
   encok_compound compound_witness = true /\ dec_compound (enc_compound compound_witness) = Err.
 Proof. exact compound_member_extent_refuted. Qed.
 Print Assumptions C11_compound_member_extent_refuted.
+
+(* ---- compound datatypes given as a LIST of members, members that are compounds themselves (a tree) ----
+   Encoders: EncodeCompoundDatatypeV1 / V3 (cp_version selects; version 3 always writes 4-byte member
+   offsets, whatever the compound size: that is what the Go code does).  A nested compound member is the
+   DatatypeMessage of its own encoding (flat).  wf_ctype: at every level 1..65535 (v1) / 1..2^32-1 (v3)
+   members, non-empty names without NUL (any length: the version-1 padding to the next multiple of 8 is
+   part of the theorem), 32-bit offsets and sizes, header fields of member types in range, the four classes
+   with a fixed property length (fixed-point, float, bitfield, time) carrying exactly that many property
+   bytes, and every member but the LAST one self-delimiting (sd): fixed-point / float / bitfield / time, or a
+   version-3 compound of self-delimiting members.  What sd excludes is the known finding
+   C11-compound-member-extent (string, reference, opaque, array, enum, variable-length before the last
+   member: C11_compound_member_extent_refuted) and its two consequences for nested compounds
+   (C11_compound_v1_member_refuted, C11_compound_greedy_tail_refuted). *)
+Theorem C11_compound_roundtrip : forall v s fs, wf_ctype (CComp v s fs) = true ->
+  dec_compound (enc_compound (to_compound v s fs)) = Ok (proj_compound v s fs).
+Proof. exact compound_tree_roundtrip. Qed.
+Print Assumptions C11_compound_roundtrip.
+
+Theorem C11_compound_encoder_accepts : forall v s fs, wf_ctype (CComp v s fs) = true ->
+  encok_compound (to_compound v s fs) = true.
+Proof. exact wf_ctype_encok. Qed.
+Print Assumptions C11_compound_encoder_accepts.
+
+(* nested compounds: ParseDatatypeMessage, then ParseCompoundType on the message and again on every member of
+   class compound (what the dataset reader does) gives the whole tree back *)
+Theorem C11_compound_nested_roundtrip : forall v s fs, wf_ctype (CComp v s fs) = true ->
+  dec_compound_tree (enc_compound (to_compound v s fs)) = Ok (CComp v s fs).
+Proof. exact compound_tree_deep_roundtrip'. Qed.
+Print Assumptions C11_compound_nested_roundtrip.
+
+(* a self-delimiting member type is parsed back exactly whatever bytes follow it (this is what lets it stand
+   before other members) *)
+Theorem C11_compound_member_self_delimiting : forall t fuel rest, sd t = true -> (depth t < fuel)%nat ->
+  dec_dt fuel (member_hdr (flat t) ++ rest) = Ok (flat t).
+Proof. exact sd_dec. Qed.
+Print Assumptions C11_compound_member_self_delimiting.
+
+(* hypotheses are satisfiable: 4 members with a nested compound in the middle and a string last (both
+   versions; the 9-byte name exercises the version-1 padding), and a 3-level tree *)
+Theorem C11_compound_examples_wf :
+  wf_ctype (tree_example 3) = true /\ wf_ctype (tree_example 1) = true /\ wf_ctype deep_example = true.
+Proof. exact tree_examples_wf. Qed.
+Print Assumptions C11_compound_examples_wf.
+
+(* same cause as C11_compound_member_extent_refuted: a version-1 compound member / a version-3 compound
+   member ending in a string, followed by another member *)
+Theorem C11_compound_v1_member_refuted :
+  match v1_member_witness with
+  | CComp v s fs => encok_compound (to_compound v s fs) = true /\ dec_compound (enc_compound (to_compound v s fs)) = Err
+  | _ => False
+  end.
+Proof. exact compound_v1_member_refuted. Qed.
+Print Assumptions C11_compound_v1_member_refuted.
+
+Theorem C11_compound_greedy_tail_refuted :
+  match greedy_tail_witness with
+  | CComp v s fs => encok_compound (to_compound v s fs) = true /\ dec_compound (enc_compound (to_compound v s fs)) = Err
+  | _ => False
+  end.
+Proof. exact compound_greedy_tail_refuted. Qed.
+Print Assumptions C11_compound_greedy_tail_refuted.
